@@ -1123,3 +1123,30 @@ def _is_int(interp, args, kwargs, node):
 def _is_new_object(interp, args, kwargs, node):
     r = SPEC["same_object"](interp, args, kwargs, node)
     return VBool(z3.Not(interp.as_bool_term(r, node)))
+
+
+@spec("created")
+def _created(interp, args, kwargs, node):
+    """created("SymdelDB"): THE instance of that repository class constructed by the verified function (independent of the name of
+    the local variable holding it); only meaningful inside witness hints and term-level clauses"""
+    want = concrete_str(args[0])
+    objs = [o for o in getattr(interp, "instances_created", []) if isinstance(o, VObj) and o.tag == want]
+    if len(objs) != 1:
+        raise Unsupported(f"created({want!r}): {len(objs)} instances were constructed")
+    return objs[0]
+
+
+@spec("call_result")
+def _call_result(interp, args, kwargs, node):
+    """call_result("pyrepseq.nn.nearest_neighbor"[, k]): the value returned by the k-th (default: only) call of that function made by the
+    verified function (independent of the local variable it was bound to)"""
+    q = concrete_str(args[0])
+    calls = [c for c in interp.contract_calls if c[0] == q]
+    k = concrete_int(args[1]) if len(args) > 1 else None
+    if k is None:
+        if len(calls) != 1:
+            raise Unsupported(f"call_result({q!r}): {len(calls)} calls were made")
+        return calls[0][2]
+    if k >= len(calls):
+        raise Unsupported(f"call_result({q!r}, {k}): only {len(calls)} calls were made")
+    return calls[k][2]
